@@ -75,7 +75,12 @@ def summarize(prog, path, adt, depth=0):
     SELF = cr.arg(b, 1)
     if is_adt_agg(rt, adt):
         return {s: agg_field(rt, s) for s in slots}, None
-    if (rt[0] == "var" and rt[1] == 1) or rt == SELF:
+    # `mut self` style, possibly through a rebinding (`let mut this = self;`)
+    self_alias = (rt[0] == "var" and rt[1] == 1) or rt == SELF
+    if rt[0] == "var" and rt[1] != 1:
+        ini = b.var_init(rt[1])
+        self_alias = len(ini) == 1 and ini[0] in (SELF, ("var", 1, b.names.get(1)))
+    if self_alias:
         out = {}
         for s in slots:
             idx = [f["name"] for f in prog.adts[adt]["variants"][0]["fields"]].index(s)
